@@ -117,8 +117,10 @@ impl Check for Routing {
             }
         }
         // damage
-        let damage = e.weighted(&[5, 2, 2, 1]);
+        let damage = e.weighted(&[4, 2, 3, 1]);
         let mut damaged = "none";
+        // (router whose subnets the sender should sit on, destination subnet) of a generated loop
+        let mut loop_route: Option<(usize, usize)> = None;
         match damage {
             1 if nr >= 1 => {
                 let r = e.choose(nr);
@@ -146,6 +148,7 @@ impl Check for Routing {
                             routers[x].table.push((d, Some(router_ip(s, y)), slot));
                         }
                         damaged = "loop";
+                        loop_route = Some((a, d));
                     }
                 }
             }
@@ -193,6 +196,14 @@ impl Check for Routing {
                 continue;
             }
             sends.push((a, b, 0xC160_0000 + t as u32));
+        }
+        // make sure a generated loop is exercised: one datagram from a host next to the looping router to the looped subnet
+        if let Some((a, d)) = loop_route {
+            let from = hosts.iter().position(|(s, _)| routers[a].nets.contains(s) && *s != d);
+            let to = hosts.iter().position(|(s, _)| *s == d);
+            if let (Some(f), Some(t)) = (from, to) {
+                sends.push((f, t, 0xC160_00F0));
+            }
         }
         if sends.is_empty() {
             return Ok(());
